@@ -242,6 +242,12 @@ def search_programs(ctx: Ctx, pl: cxx.Pipeline) -> SearchResult:
 	hist: Counter[str] = Counter()
 	seen: set[str] = set()
 	dl = deadline(ctx, 240, 1500)   # total wall budget of the search: later phases are skipped (and counted), reductions stop
+	import time
+	marks: list[tuple[str, float]] = [('start', time.time())]
+
+	def mark(name: str) -> None:
+		marks.append((name, time.time()))
+		ctx.timings[f'search:{name}'] = round(marks[-1][1] - marks[-2][1], 3)
 
 	# 1. corpus: minimised witnesses of the known defect classes, replayed first (concrete replays)
 	corpus = load_corpus()
@@ -256,6 +262,7 @@ def search_programs(ctx: Ctx, pl: cxx.Pipeline) -> SearchResult:
 		elif r['status'] == 'vacuous':
 			ctx.notes.append(f"corpus witness {c['_file']} is vacuous: {r.get('why')}")
 
+	mark('corpus')
 	# 2. generated programs: generating is cheap, transpiling + compiling is not. A pool is generated and the programs that run are
 	# selected so that EVERY construct feature of the generator (for over enumerate / dict views / object views, list and dict comprehensions,
 	# default arguments, every augmented operator, ...) occurs in at least `need` of them, whatever the seed; the rest is filled in pool order
@@ -288,6 +295,7 @@ def search_programs(ctx: Ctx, pl: cxx.Pipeline) -> SearchResult:
 			res.samples.append({'source': d['source'][:600], 'compared_calls': r['compared']})
 	hist['calls-compared'] = compared
 
+	mark('generated')
 	# 2b. probe programs: one construct tranp is known to mishandle per program, randomised operands, own finding key
 	probes = [gen_prog.probe_program(random.Random(rng.random())) for _ in range(0 if past(dl) else ctx.scale(5, 45))]
 	hist['skipped-at-deadline:probes'] += int(past(dl))
@@ -309,6 +317,7 @@ def search_programs(ctx: Ctx, pl: cxx.Pipeline) -> SearchResult:
 			res.findings.append(Finding(key=key, what=gen_prog.IDIOM_WHAT[key] + f" [idiom program: {r['status']}]",
 				replay={'key': key, 'program': d, 'result': _short(r), 'emitted': r.get('emitted')}))
 
+	mark('probes+idioms')
 	# 2c. forced operator pairs: every well-typed parent x child pair of the precedence ladder (unary x binary, binary x binary x side,
 	# binary x unary) as its own tiny function, called on arguments on which the two groupings of the operator sequence differ
 	pcases = gen_prog.pair_cases(random.Random(rng.random()))
@@ -333,6 +342,7 @@ def search_programs(ctx: Ctx, pl: cxx.Pipeline) -> SearchResult:
 					f"[the other grouping of the same operators is {c['alt']}; {r['status']}]",
 					replay={'key': c['key'], 'program': d, 'result': _short(r), 'emitted': r.get('emitted')}))
 
+	mark('pairs')
 	# 3. attribute every failing program to defect classes; shrink what stays unexplained
 	unexplained = 0
 	for p, r, culprits, details in attribute(pl, failing):
@@ -354,6 +364,7 @@ def search_programs(ctx: Ctx, pl: cxx.Pipeline) -> SearchResult:
 			res.findings.append(Finding(key=key, what=f"{qr['status']} not explained by a known defect class; reduced program in the replay",
 				replay={'key': key, 'program': gen_prog.to_dict(q), 'result': _short(qr), 'emitted': qr.get('emitted'), 'original_program': d,
 					'original_result': _short(r), 'attribution': details, 'attribution_reduced': details2}))
+	mark('attribute+shrink')
 	res.distinct = len(seen)
 	res.histogram = dict(sorted(hist.items()))
 	res.note = '; '.join(gen_prog.SUBSET_NOTES[:2])
@@ -1273,7 +1284,7 @@ def run(ctx: Ctx) -> int:
 		partial={
 			'proved': 'operator level: emitted tokens re-parsed by the C++ grammar (Prec table + wrapper grammar for ?:, calls, members) = Python grouping for every chain-free operator node incl. ternary, in / not in, fmod (group, group_full); '
 				'the emitter\'s precedence table agrees with the C++ grammar table; operator semantics agree inside the subset on ints, bools and abstract floats (sem, agree, sem_full, agree_full); template/ladder totality (ops_total, ladder_eq). '
-				'statement level: which assignment declares (stmt_decl) and agreement of assign / augmented assign / return / if-elif-else / while / for-over-range / break / continue programs over the operator core on ints/bools under the static condition scopeOK (stmt_agree), each clause of which is proved necessary on the emitted form (stmt_scope_counterexample, range_reevaluated_counterexample, range_loopvar_counterexamples)',
+				'statement level: which assignment declares (stmt_decl) and agreement of assign / augmented assign / return / if-elif-else / while / for-over-range / break / continue programs over the operator core on ints/bools under the static condition scopeOK (stmt_agree), each clause of which is proved necessary on the emitted form (stmt_scope_counterexample, range_reevaluated_counterexample, range_loopvar_counterexamples); every translated statement template read as C++ is the statement form the C++ semantics gives its constructor (stmt_forms)',
 			'correspondence_only': 'Model.Emit = real Py2Cpp on operator nodes (stream emit: exact text, tokens, wf, CPython grouping); cppTable and the wrapper grammar = g++\'s grammar (stream cpptable; by value in stream sem); '
 				'pyEval / cEvalX = CPython / g++ on ints, bools, floats (stream sem); Model.EmitStmt = real Py2Cpp body lines, CPython and g++ on generated core programs (stream stmt)',
 			'search_only': 'for loops over lists/dicts/enumerate, while-else / for-else, calls between functions, functions/closures/default args, classes, enums, containers, comprehensions, strings, casts, exceptions, augmented/destructuring assignment, float and bool variables in statements, '
